@@ -70,4 +70,10 @@ RdBin(b, i, lim) ==
 RdStr(b, i, lim) ==
   LET r == RdBin(b, i, lim) IN
   IF ~r.ok THEN r ELSE IF Utf8Ok(r.v) THEN r ELSE Err("utf8")
+
+\* payloads in generated vectors follow a position pattern: the byte at payload offset i is i % 251;
+\* large pieces are compared by their checksum
+PatSum(from, n) ==  \* sum of (i % 251) for i in from..from+n-1, modulo 65521 (32 bit safe)
+  LET S(m) == ((m \div 251) % 65521) * 31375 + ((m % 251) * ((m % 251) - 1)) \div 2 IN
+  ((S(from + n) % 65521) + 65521 - (S(from) % 65521)) % 65521
 =============================================================================
